@@ -122,7 +122,7 @@ def generate(rng, tier):
     for i in range(12000 if quick else 120000):
         ne = rng.choice([1, 2, 2, 3, 4])
         prog = X.gen_program(rng, rng.randint(ne + 2, 11), ne)
-        ops = X.gen_ops(rng, prog, rng.randint(8, 40), w=(0.30, 0.04, 0.12, 0.24, 0.18, 0.12))
+        ops = X.gen_ops(rng, prog, rng.randint(8, 40), w=(0.30, 0.04, 0.12, 0.24, 0.18, 0.12), p_drop=0.15)
         if rng.random() < 0.7:
             ops.append([4])
         yield dict(case=C.norm([prog, ops]), kind="random", compare=True)
